@@ -63,6 +63,8 @@ FUT = "barter-data/src/exchange/binance/futures/l2.rs"
 DD = "barter/src/statistic/metric/drawdown/mod.rs"
 DDMAX = "barter/src/statistic/metric/drawdown/max.rs"
 DDMEAN = "barter/src/statistic/metric/drawdown/mean.rs"
+PSN = "barter/src/engine/state/position.rs"
+TRADE = "barter-execution/src/trade.rs"
 
 # (group, file, container, kind, name, options)     container: None = file top level, "mod x" or "impl X"
 MACHINES = [
@@ -99,8 +101,30 @@ MACHINES = [
     ("drawdown", DDMEAN, "impl MeanDrawdownGenerator", "fn", "init", {}),
     ("drawdown", DDMEAN, "impl MeanDrawdownGenerator", "fn", "update", {}),
     ("drawdown", DDMEAN, "impl MeanDrawdownGenerator", "fn", "generate", {}),
+    ("position_sm", "barter-instrument/src/lib.rs", None, "enum", "Side", {}),
+    ("position_sm", "barter-instrument/src/asset/mod.rs", None, "struct", "QuoteAsset", {}),
+    ("position_sm", TRADE, None, "opaque", "TradeId", {}),
+    ("position_sm", "barter-execution/src/order/id.rs", None, "opaque", "OrderId", {}),
+    ("position_sm", "barter-execution/src/order/id.rs", None, "opaque", "StrategyId", {}),
+    ("position_sm", TRADE, None, "struct", "AssetFees", {}),
+    ("position_sm", TRADE, "impl Default for AssetFees<QuoteAsset>", "fn", "default", {}),
+    ("position_sm", TRADE, None, "struct", "Trade", {}),
+    ("position_sm", PSN, None, "fn", "calculate_price_entry_average", {}),
+    ("position_sm", PSN, None, "fn", "approximate_remaining_exit_fees", {}),
+    ("position_sm", PSN, None, "fn", "calculate_pnl_unrealised", {}),
+    ("position_sm", PSN, None, "fn", "calculate_pnl_realised", {}),
+    ("position_sm", PSN, None, "struct", "Position", {}),
+    ("position_sm", PSN, None, "struct", "PositionExited", {}),
+    ("position_sm", PSN, "impl From for Position", "fn", "from", {}),
+    ("position_sm", PSN, "impl From for PositionExited", "fn", "from", {}),
+    ("position_sm", PSN, "impl Position", "fn", "update_price_entry_average", {}),
+    ("position_sm", PSN, "impl Position", "fn", "update_pnl_unrealised", {}),
+    ("position_sm", PSN, "impl Position", "fn", "update_pnl_realised", {}),
+    ("position_sm", PSN, "impl Position", "fn", "update_from_trade", {}),
+    ("position_sm", PSN, None, "struct", "PositionManager", {}),
+    ("position_sm", PSN, "impl PositionManager", "fn", "update_from_trade", {}),
 ]
-GROUPS = ["sequencer", "drawdown"]
+GROUPS = ["sequencer", "drawdown", "position_sm"]
 
 PRELUDE = """\
 /-! ## Fixed prelude: the meaning given to the Rust vocabulary of the accepted subset
@@ -116,6 +140,11 @@ PRELUDE = """\
   `opt.take()` returns the field's value and writes `none`.
 * `fn f(&mut self, a) -> R` is `f (self) (a) : S × R` (`S` alone for `R = ()`).
 -/
+
+/-- A Rust panic site (`unreachable!(..)`, `panic!(..)`) as a value: an unspecified inhabitant. Nothing can be
+proved about it, so an agreement theorem about a function that contains one only holds if the site is dead
+code (`Vec<T>` is `List T`, `.push(x)` appends; type parameters stay parameters with decidable equality). -/
+opaque Rust.unreachable {α : Type} [Inhabited α] : α
 
 /-- `Decimal::abs`. -/
 def Decimal.abs (x : Rat) : Rat := if x < 0 then -x else x
@@ -1089,7 +1118,7 @@ class Fn:
 
 class World:
     def __init__(self):
-        self.structs, self.enums, self.fns, self.opaque = {}, {}, {}, set()
+        self.structs, self.enums, self.fns, self.opaque, self.failed = {}, {}, {}, set(), set()
         self.generic_fns = {}     # (container, name) -> (parsed fn, lean base name, where-text)
         self.instances = {}       # (container, name, type) -> Fn
         self.pending = []         # Lean text of instances generated while compiling the current item
@@ -1223,6 +1252,7 @@ class Compiler:
         self.w, self.self_ty, self.mode, self.ret = world, self_ty, mode, ret
         self.used = set(idents) | {"self"}
         self.tr = resolver
+        self.globs = []          # enums whose variants are in scope through `use Enum::*;`
 
     def fresh(self, base):
         n = 1
@@ -1281,6 +1311,8 @@ class Compiler:
             return V(e[1].replace("_", ""), expect if expect in (NAT, INT) else INTLIT)
         if k == "unit":
             return V("()", UNIT)
+        if k == "panic":
+            return V("Rust.unreachable", HOLE)
         if k == "tuple":
             ex = expect[1] if expect and expect[0] == "tuple" and len(expect[1]) == len(e[1]) else [None] * len(e[1])
             vs = [self.cx(x, env, ind, t) for x, t in zip(e[1], ex)]
@@ -1328,6 +1360,21 @@ class Compiler:
                 raise Reject(f"`if` branches of different types {ty_rust(a.ty)} / {ty_rust(b.ty)}")
             pad = "  " * ind
             return V(f"(if {c} then\n{pad}  {self.val(a)}\n{pad}else\n{pad}  {self.val(b)})", u)
+        if k == "match" and self.is_chain(e):
+            conds = self.chain_of(e, env, ind)
+            pad = "  " * ind
+            vals, u = [], expect
+            for c, body in conds:
+                b = self.pure_block(body, env, ind + 1, u)
+                u2 = unify(u, b.ty) if u else b.ty
+                if u2 is None:
+                    raise Reject("match arms of different types")
+                u = u2
+                vals.append((c, self.val(b)))
+            text = vals[-1][1]
+            for c, b in reversed(vals[:-1]):
+                text = f"(if {c} then\n{pad}  {b}\n{pad}else\n{pad}  {text})"
+            return V(text, u)
         if k in ("iflet", "match"):
             s = self.cx(e[2] if k == "iflet" else e[1], env, ind + 1)
             arms = self.arms_of(e, s, env)
@@ -1391,6 +1438,12 @@ class Compiler:
                 return V(n, BOOL)
             if n == "None":
                 return V("none", ("opt", HOLE))
+            if n in self.w.structs and not self.w.structs[n].fields and not self.w.structs[n].dropped and not self.w.structs[n].generics:
+                return V(f"{n}.mk", ("struct", n, ()))
+            for en in self.globs:
+                var = self.w.enums[en].variant(n)
+                if var is not None and var[1] == "unit":
+                    return V(f"{en}.{n}", ("enum", en))
             raise Reject(f"unknown identifier `{n}`")
         head, last = segs[-2], segs[-1]
         if head == "Decimal":
@@ -1437,6 +1490,14 @@ class Compiler:
             if a is None or a.ty not in (NAT, INTLIT):
                 raise Reject("`Decimal::from(..)` of anything but one u64 value")
             return V(f"(({a.text} : Nat) : Rat)", DEC)
+        if segs[-2:] in (["Vec", "new"], ["Vec", "with_capacity"]):
+            if segs[-1] == "with_capacity":
+                if len(args) != 1:
+                    raise Reject("`Vec::with_capacity` arguments")
+                self.cx(args[0], env, ind)          # the capacity has no meaning for a list
+            elif args:
+                raise Reject("`Vec::new` arguments")
+            return V("[]", ("list", HOLE))
         # constructors of tuple structs / tuple variants
         st, targs = self.struct_of(segs) if name[0].isupper() else (None, None)
         if st is not None and len(segs) == 1 or (st is not None and segs[-1] == "Self"):
@@ -1465,12 +1526,26 @@ class Compiler:
             fn = self.w.fns[key]
             if fn.mode != "none":
                 raise Reject(f"method `{shown}` called through a path")
-            if len(args) != len(fn.params):
-                raise Reject(f"call of `{shown}` with {len(args)} arguments")
-            vs = [self.cx(a, env, ind, t) for a, (_, t) in zip(args, fn.params)]
+            vs, ret = self.call_args(fn, None, args, env, ind, shown, expect)
+            return V("(" + " ".join([fn.lean] + [atom(self.val(v)) for v in vs]) + ")", ret)
         else:
-            raise Reject(f"call of `{shown}`, which is not a translated function")
+            raise Reject(f"call of `{shown}`, which is not a translated function" + (" (it was rejected above)" if key in self.w.failed else ""))
         return V("(" + " ".join([fn.lean] + [atom(self.val(v)) for v in vs]) + ")", fn.ret)
+
+    def call_args(self, fn, recv_ty, args, env, ind, shown, expect=None):
+        """compiled arguments and the result type of a call of a translated fn (type variables of the callee are
+        determined from the receiver / arguments / expected result)"""
+        if len(args) != len(fn.params):
+            raise Reject(f"call of `{shown}` with {len(args)} arguments")
+        if not fn.tvars:
+            return [self.cx(a, env, ind, t) for a, (_, t) in zip(args, fn.params)], fn.ret
+        vs = [self.cx(a, env, ind) for a in args]
+        ptys, ret = fn.instance(recv_ty, [v.ty for v in vs], shown)
+        for v, pt in zip(vs, ptys):
+            self.fit(v, pt, f"argument of `{shown}`")
+        if expect is not None and has_hole(ret) and unify(ret, expect) is not None:
+            ret = unify(ret, expect)
+        return vs, ret
 
     def dropped_note(self, en, name):
         return f" (variant `{name}` exists in the source but is outside the translated restriction)" if name in en.dropped else ""
@@ -1513,12 +1588,13 @@ class Compiler:
             if st.generics:
                 if targs is None and expect and expect[0] == "struct" and expect[1] == st.name:
                     targs = expect[2]
-                tmap = dict(zip(st.generics, targs)) if targs else {}
+                tmap = {g: a for g, a in zip(st.generics, targs or ()) if not has_hole(a)}
             vals = []
             for f, t in st.fields:
-                v = self.cx(given[f], env, ind, subst(t, tmap) if t[0] != "tvar" or t[1] in tmap else None)
-                if t[0] == "tvar" and t[1] not in tmap:
-                    tmap[t[1]] = v.ty
+                known = all(x in tmap for x in tvars_of(t)) or not st.generics
+                v = self.cx(given[f], env, ind, subst(t, tmap) if known else None)
+                if not known and not match_ty(t, v.ty, tmap):
+                    raise Reject(f"field `{f}` of `{st.name}` given a value of type {ty_rust(v.ty)}")
                 vals.append(f"{lean_id(f)} := {self.val(v)}")
             ty = ("struct", st.name, tuple(tmap.get(g, HOLE) for g in st.generics))
             if has_hole(ty):
@@ -1564,12 +1640,12 @@ class Compiler:
             fn = self.w.fns[(t[1], name)]
             if fn.mode == "mut":
                 raise Reject(f"call of the `&mut self` method `.{name}(..)` inside a larger expression (accepted only as a whole statement / initialiser / tail)")
-            if fn.mode != "ref":
-                raise Reject(f"`.{name}(..)`: `{t[1]}::{name}` takes no `&self`")
-            if len(args) != len(fn.params):
-                raise Reject(f"`.{name}(..)` with {len(args)} arguments")
-            vs = [self.cx(a, env, ind, pt) for a, (_, pt) in zip(args, fn.params)]
-            return V("(" + " ".join([fn.lean, atom(r.text)] + [atom(self.val(v)) for v in vs]) + ")", fn.ret)
+            if fn.mode not in ("ref", "own", "ownmut"):
+                raise Reject(f"`.{name}(..)`: `{t[1]}::{name}` takes no `self`")
+            vs, ret = self.call_args(fn, t, args, env, ind, f".{name}(..)", expect)
+            return V("(" + " ".join([fn.lean, atom(r.text)] + [atom(self.val(v)) for v in vs]) + ")", ret)
+        if t[0] == "struct" and (t[1], name) in self.w.failed:
+            raise Reject(f"call of `{t[1]}::{name}`, which was rejected above")
         if name == "clone" and not args:
             return r
         if t == DEC and name == "abs" and not args:
@@ -1616,7 +1692,7 @@ class Compiler:
         b = self.cx(y, env, ind, a.ty if a.ty in (NAT, INT) else None)
         if op in CMPSYM:
             u = unify(a.ty, b.ty)
-            ok = u in ORDERED or (op in ("==", "!=") and u is not None and u[0] == "enum")
+            ok = u in ORDERED or (op in ("==", "!=") and u is not None and u[0] in ("enum", "tvar", "opaque"))
             if not ok:
                 raise Reject(f"comparison `{op}` on {ty_rust(a.ty)} / {ty_rust(b.ty)}")
             if u == INTLIT:
@@ -1678,6 +1754,8 @@ class Compiler:
                 else:
                     out.append("_")
             return "⟨" + ", ".join(out) + "⟩", env
+        if k == "ppath" and ty[0] == "enum" and len(p[1]) == 1 and ty[1] in self.globs:
+            p = ("ppath", [ty[1], p[1][0]])
         if k in ("pctor", "pstruct", "ppath") and ty[0] == "enum" and len(p[1]) >= 2 and p[1][-2] in (ty[1], "Self"):
             en = self.w.enums[ty[1]]
             var = en.variant(p[1][-1])
@@ -1705,6 +1783,59 @@ class Compiler:
                         out.append("_")
             return " ".join([f"{en.name}.{var[0]}"] + out), env
         raise Reject(f"pattern `{k}` on a value of type {ty_rust(ty)}")
+
+    def is_chain(self, e):
+        """a `match` that needs the ordered reading: guards, or-patterns, a wildcard arm or a tuple scrutinee"""
+        return e[1][0] == "tuple" or any(g is not None or len(ps) != 1 or ps[0][0] == "pwild" for ps, g, _ in e[2])
+
+    def pat_cond(self, p, v):
+        """the condition under which the binder-free pattern p matches the value v (None = always)"""
+        k = p[0]
+        if k == "pwild":
+            return None
+        if k == "ptuple":
+            if v.ty[0] != "tuple" or len(v.ty[1]) != len(p[1]):
+                raise Reject(f"tuple pattern on a value of type {ty_rust(v.ty)}")
+            comps = v.comps if getattr(v, "comps", None) else [V(f"{atom(v.text)}.{i + 1}", t) for i, t in enumerate(v.ty[1])]
+            cs = [c for c in (self.pat_cond(q, c) for q, c in zip(p[1], comps)) if c is not None]
+            return "(" + " ∧ ".join(cs) + ")" if cs else None
+        if k == "pbool":
+            return self.prop(v) if p[1] == "true" else f"(¬{self.prop(v)})"
+        if k == "ppath" and v.ty[0] == "enum":
+            en = self.w.enums[v.ty[1]]
+            if not (len(p[1]) >= 2 and p[1][-2] in (en.name, "Self") or len(p[1]) == 1 and en.name in self.globs):
+                raise Reject(f"pattern `{'::'.join(p[1])}` on a value of enum `{en.name}`")
+            var = en.variant(p[1][-1])
+            if var is None or var[1] != "unit":
+                raise Reject(f"pattern `{'::'.join(p[1])}`: no translated unit variant")
+            return f"({v.text} = {en.name}.{var[0]})"
+        if k == "ppath" and p[1] == ["None"] and v.ty[0] == "opt":
+            return f"({v.text} = none)"
+        raise Reject("a `match` with guards / or-patterns / `_` / a tuple scrutinee accepts only binder-free patterns "
+                     "(unit variants, tuples of them, `true`/`false`, `None`, `_`)")
+
+    def chain_of(self, e, env, ind):
+        """[(condition | None, body)]: the arms in order; the last one must be unconditional"""
+        sx = e[1]
+        if self.effect(sx, env) or (sx[0] == "tuple" and any(self.effect(x, env) for x in sx[1])):
+            raise Reject("state-changing scrutinee of a `match` with guards / or-patterns")
+        s = self.cx(sx, env, ind + 1)
+        if sx[0] == "tuple":
+            s.comps = [self.cx(x, env, ind + 1) for x in sx[1]]
+        out = []
+        for pats, guard, body in e[2]:
+            cs = [self.pat_cond(p, s) for p in pats]
+            c = None if any(x is None for x in cs) else (cs[0] if len(cs) == 1 else "(" + " ∨ ".join(cs) + ")")
+            if guard is not None:
+                g = self.prop(self.cx(guard, env, ind + 1))
+                c = g if c is None else f"({c} ∧ {g})"
+            out.append((c, body))
+        if out[-1][0] is not None:
+            raise Reject("a `match` with guards / or-patterns / a tuple scrutinee must end in an unguarded `_` arm "
+                         "(exhaustiveness is not decided by the translator)")
+        if any(c is None for c, _ in out[:-1]):
+            raise Reject("unreachable arms after an unconditional arm")
+        return out
 
     def arms_of(self, e, s, env):
         """checks exhaustiveness (syntactically, strictly) and returns
@@ -1743,7 +1874,7 @@ class Compiler:
                 raise Reject(f"match on `{en.name}`, which is translated only in part")
             seen = []
             for p in pats:
-                if p[0] not in ("ppath", "pctor", "pstruct") or len(p[1]) < 2:
+                if p[0] not in ("ppath", "pctor", "pstruct") or (len(p[1]) < 2 and en.name not in self.globs):
                     raise Reject(f"match pattern on a value of enum `{en.name}` (only `{en.name}::Variant..`, no wildcard)")
                 subs = p[2] if p[0] == "pctor" else [q for _, q in p[2]] if p[0] == "pstruct" else []
                 if not all(self.irrefutable(q) for q in subs):
@@ -1807,6 +1938,8 @@ class Compiler:
             return None
         if e[2] == "take" and not e[3] and pl.ty[0] == "opt":
             return ("take", lv, pl)
+        if e[2] == "push" and len(e[3]) == 1 and pl.ty[0] == "list":
+            return ("push", lv, pl)
         if pl.ty[0] == "struct" and (pl.ty[1], e[2]) in self.w.fns and self.w.fns[(pl.ty[1], e[2])].mode == "mut":
             return ("call", lv, pl)
         return None
@@ -1819,20 +1952,24 @@ class Compiler:
             _, (root, fields), pl = eff
             t = self.fresh("taken")
             lines = [f"{pad}let {t} : {ty_lean(pl.ty)} := {pl.text}",
-                     f"{pad}let {env[root].lean} := {self.set_place(root, fields, env, 'none')}"]
+                     f"{pad}let {env[root].lean} : {ty_lean(env[root].ty)} := {self.set_place(root, fields, env, 'none')}"]
             return lines, self.fit(V(t, pl.ty), expect)
+        if eff and eff[0] == "push":
+            _, (root, fields), pl = eff
+            x = self.cx(e[3][0], env, ind, pl.ty[1] if not has_hole(pl.ty[1]) else None)
+            new = f"({pl.text} ++ [{self.val(x)}])"
+            return [f"{pad}let {env[root].lean} : {ty_lean(env[root].ty)} := {self.set_place(root, fields, env, new)}"], self.fit(V("()", UNIT), expect)
         if eff:
             _, (root, fields), pl = eff
             fn = self.w.fns[(pl.ty[1], e[2])]
-            if len(e[3]) != len(fn.params):
-                raise Reject(f"`.{e[2]}(..)` with {len(e[3])} arguments")
-            vs = [self.cx(a, env, ind, pt) for a, (_, pt) in zip(e[3], fn.params)]
+            vs, ret = self.call_args(fn, pl.ty, e[3], env, ind, f".{e[2]}(..)")
+            fn = Fn(fn.lean, fn.mode, fn.self_ty, fn.params, ret)
             call = " ".join([fn.lean, atom(pl.text)] + [atom(self.val(v)) for v in vs])
             if fn.ret == UNIT:
-                return [f"{pad}let {env[root].lean} := {self.set_place(root, fields, env, '(' + call + ')')}"], self.fit(V("()", UNIT), expect)
+                return [f"{pad}let {env[root].lean} : {ty_lean(env[root].ty)} := {self.set_place(root, fields, env, '(' + call + ')')}"], self.fit(V("()", UNIT), expect)
             c = self.fresh("call")
             lines = [f"{pad}let {c} := {call}",
-                     f"{pad}let {env[root].lean} := {self.set_place(root, fields, env, c + '.1')}"]
+                     f"{pad}let {env[root].lean} : {ty_lean(env[root].ty)} := {self.set_place(root, fields, env, c + '.1')}"]
             return lines, self.fit(V(f"{c}.2", fn.ret), expect)
         if e[0] in ("match", "iflet"):
             si = 2 if e[0] == "iflet" else 1
@@ -1883,9 +2020,17 @@ class Compiler:
             return self.cs(items, i + 1, tail, env2, k, ind2, expect)
 
         if st[0] == "let":
-            return self.c_let(st, env, ind, rest)
+            return self.c_let(st, env, ind, rest, items[i + 1:])
+        if st[0] == "use":
+            en = st[1][-1]
+            if en not in self.w.enums or self.w.enums[en].dropped:
+                raise Reject(f"`use {'::'.join(st[1])}::*;` of something that is not a (fully) translated enum")
+            self.globs.append(en)
+            return rest(env, ind)
         e = st[1]
         kind = e[0]
+        if kind == "panic":
+            return f"{pad}Rust.unreachable"
         if kind == "assign":
             line, env2 = self.c_assign(e, env, ind)
             return line + "\n" + rest(env2, ind)
@@ -1933,9 +2078,9 @@ class Compiler:
         else:
             v = self.cx(rhs, env, ind, cur.ty if cur.ty in (NAT, INT) else None)
             new = self.arith(op[0], cur, v).text
-        return f"{pad}let {env[root].lean} := {self.set_place(root, fields, env, new)}", env
+        return f"{pad}let {env[root].lean} : {ty_lean(env[root].ty)} := {self.set_place(root, fields, env, new)}", env
 
-    def c_let(self, st, env, ind, rest):
+    def c_let(self, st, env, ind, rest, following=()):
         _, p, ann, init, els = st
         pad = "  " * ind
         annt = self.tr.resolve(ann) if ann else None
@@ -1964,6 +2109,11 @@ class Compiler:
                 raise Reject("`let .. else` block that can fall through (it must end in `return`)")
             other = self.cs(els[1], 0, els[2], env, k_div, ind + 1, UNIT)
             return "\n".join(lines + [f"{pad}(match {v.text} with\n{pad}| none =>\n{other}\n{pad}| {pt} =>\n" + rest(env2, ind + 1) + ")"])
+        if v.ty == ("list", HOLE) and p[0] == "pbind" and following:
+            # `let mut xs = Vec::new();` directly followed by `xs.push(e);`: the element type is that of e
+            nx = following[0]
+            if nx[0] == "expr" and nx[1][0] == "mcall" and nx[1][1] == ("path", [p[1]]) and nx[1][2] == "push" and len(nx[1][3]) == 1:
+                v.ty = ("list", self.cx(nx[1][3][0], env, ind).ty)
         if has_hole(v.ty):
             raise Reject("type of a `let` initialiser is not determined" + (" (integer literal: annotate the type)" if v.ty == INTLIT else ""))
         if p[0] == "pbind":
@@ -1988,6 +2138,16 @@ class Compiler:
             a = self.cs(e[2][1], 0, e[2][2], env, k, ind + 1, expect)
             b = self.cs(e[3][1], 0, e[3][2], env, k, ind + 1, expect) if e[3] else k(V("()", UNIT), env, ind + 1)
             return f"{pad}(if {c} then\n{a}\n{pad}else\n{b})"
+        if kind == "match" and self.is_chain(e):
+            conds = self.chain_of(e, env, ind)
+            def go(j, ind2):
+                c, body = conds[j]
+                pad2 = "  " * ind2
+                if c is None:
+                    return self.cs(body[1], 0, body[2], env, k, ind2, expect)
+                a = self.cs(body[1], 0, body[2], env, k, ind2 + 1, expect)
+                return f"{pad2}(if {c} then\n{a}\n{pad2}else\n" + go(j + 1, ind2 + 1) + ")"
+            return go(0, ind)
         lines, s = self.head(e[2] if kind == "iflet" else e[1], env, ind)
         arms = self.arms_of(e, s, env)
         if arms[0] == "bool":
@@ -2004,6 +2164,8 @@ class Compiler:
 
     def ctail(self, e, env, k, ind, expect):
         kind = e[0]
+        if kind == "panic":
+            return "  " * ind + "Rust.unreachable"
         if kind in BLOCKLIKE:
             if self.branch_is_pure(e, env):
                 return k(self.cx(e, env, ind, expect), env, ind)
@@ -2061,12 +2223,12 @@ class Compiler:
 
 # ------------------------------------------------------------------------------------------ driver
 
-def compile_fn(world, parsed, toks, cname, self_ty, lean_name, tmap=None):
-    """(Lean text of the definition, Fn)"""
+def compile_fn(world, parsed, toks, cname, self_ty, lean_name, tmap=None, tvars=()):
+    """(Lean text of the definition, Fn); tvars = type parameters of the enclosing impl (kept generic)"""
     name, gs, mode, params, ret_toks, body = parsed
     if mode != "none" and (self_ty is None or self_ty[0] != "struct"):
         raise Reject("`self` receiver outside an impl of a translated struct")
-    tr = TypeResolver(world, self_ty, ())
+    tr = TypeResolver(world, self_ty, tvars)
     if tmap:
         base_resolve = tr.ty
 
@@ -2090,11 +2252,14 @@ def compile_fn(world, parsed, toks, cname, self_ty, lean_name, tmap=None):
     c = Compiler(world, self_ty, mode, ret, idents, tr)
     env = {}
     if mode != "none":
-        env["self"] = Var(self_ty, mode == "mut", "self")
+        env["self"] = Var(self_ty, mode in ("mut", "ownmut"), "self")
     for p, mut, t in ptys:
         env[p] = Var(t, mut, lean_id(p))
     text = c.cs(body[1], 0, body[2], env, c.k_ret, 1, ret)
-    sig = []
+    used = []
+    for t in ([self_ty] if mode != "none" else []) + [t for _, _, t in ptys] + [ret]:
+        tvars_of(t, used)
+    sig = [f"{{{g} : Type}} [DecidableEq {g}]" for g in tvars if g in used]
     if mode != "none":
         sig.append(f"(self : {ty_lean(self_ty)})")
     sig += [f"({lean_id(p)} : {ty_lean(t)})" for p, _, t in ptys]
@@ -2103,28 +2268,34 @@ def compile_fn(world, parsed, toks, cname, self_ty, lean_name, tmap=None):
     else:
         rt = ty_lean(ret)
     out = f"def {lean_name} " + " ".join(sig) + f" : {rt} :=\n{text}"
-    return out, Fn(lean_name, mode, self_ty, [(p, t) for p, _, t in ptys], ret)
+    return out, Fn(lean_name, mode, self_ty, [(p, t) for p, _, t in ptys], ret, [g for g in tvars if g in used])
 
 
 def translate(world, text, raw, container, kind, name, opts):
     """returns (lean text of the item, sha of its source text, line)"""
-    a, b = find_item(text, container, kind, name)
+    a, b, igs, sty_toks = find_item(text, container, "struct" if kind == "opaque" else kind, name)
     sha = hashlib.sha256(raw[a:b].encode()).hexdigest()[:16]
     line = raw.count("\n", 0, a) + 1
     toks = tokenize(text[a:b])
     p = Parser(toks)
     self_ty, cname = None, None
     if container:
-        ck, cname = container.split()
-        if ck == "impl":
-            if cname in world.structs:
-                if world.structs[cname].generics:
-                    raise Reject(f"`{container}`: impl of a generic struct")
-                self_ty = ("struct", cname, ())
-            elif cname in world.enums:
-                self_ty = ("enum", cname)
-            else:
-                raise Reject(f"`{container}`: `{cname}` is not a translated type")
+        if sty_toks is None:
+            cname = container.split()[1]
+        else:
+            try:
+                self_ty = TypeResolver(world, None, igs).resolve(sty_toks)
+            except Reject as ex:
+                raise Reject(f"`{container}`: {ex}")
+            if self_ty[0] not in ("struct", "enum"):
+                raise Reject(f"`{container}`: impl of {ty_rust(self_ty)}")
+            cname = self_ty[1]
+    if kind == "opaque":
+        if name in world.lean_names:
+            raise Reject(f"name clash: `{name}` is generated twice")
+        world.lean_names.add(name)
+        world.opaque.add(name)
+        return (f"-- an identifier type: its values are only stored, cloned and compared; any injective coding would do\nabbrev {name} := Nat", sha, line)
     if kind == "struct":
         n, gs, tup, raw_fields = p.struct()
         if p.kind() != "eof":
@@ -2143,7 +2314,7 @@ def translate(world, text, raw, container, kind, name, opts):
                 if t is None:
                     tr.resolve(tt)    # raises with the reason
                 fields.append((f, t))
-        if not fields:
+        if not fields and raw_fields:
             raise Reject(f"struct `{n}` has no translated field")
         if n in world.lean_names:
             raise Reject(f"name clash: `{n}` is generated twice")
@@ -2151,6 +2322,8 @@ def translate(world, text, raw, container, kind, name, opts):
         world.structs[n] = Struct(n, gs, tup, fields, dropped)
         out = f"structure {n}" + "".join(f" ({g} : Type)" for g in gs) + " where\n" \
             + "".join(f"  {lean_id(f)} : {ty_lean(t)}\n" for f, t in fields) + "  deriving DecidableEq, Repr"
+        if not fields:
+            out = f"inductive {n} where\n  | mk\n  deriving DecidableEq, Repr"
         if dropped:
             out = (f"-- restricted to the fields of type `{only}`; not translated (no translated function may read them): "
                    + ", ".join(f"{f} : {t}" for f, t in dropped.items()) + "\n") + out
@@ -2183,7 +2356,7 @@ def translate(world, text, raw, container, kind, name, opts):
         return out, sha, line
     parsed = p.fn()
     n, gs = parsed[0], parsed[1]
-    lname = (cname + "." if cname else "") + n
+    lname = (cname + "." if cname else "") + lean_id(n)
     key = (cname, n)
     if key in world.fns or key in world.generic_fns or lname in world.lean_names:
         raise Reject(f"name clash: `{lname}` is generated twice")
@@ -2195,14 +2368,14 @@ def translate(world, text, raw, container, kind, name, opts):
 
         def compile_instance(t, parsed=parsed, toks=toks, lname=lname):
             iname = f"{lname}_{suffix[t]}"
-            out, fn = compile_fn(world, parsed, toks, cname, self_ty, iname, {gs[0]: t})
+            out, fn = compile_fn(world, parsed, toks, cname, self_ty, iname, {gs[0]: t}, igs)
             world.pending.append(f"/-- instance of the generic `{lname}` at `{ty_rust(t)}` -/\n{out}")
             return fn
         # the body is checked once at Decimal so that a rejected construct is reported here, not at a call site
-        compile_fn(world, parsed, toks, cname, self_ty, lname + "_check", {gs[0]: DEC})
+        compile_fn(world, parsed, toks, cname, self_ty, lname + "_check", {gs[0]: DEC}, igs)
         world.generic_fns[key] = (parsed, lname, compile_instance)
         return (f"-- generic over `{gs[0]}`: instantiated below at the types it is called with", sha, line)
-    out, fn = compile_fn(world, parsed, toks, cname, self_ty, lname)
+    out, fn = compile_fn(world, parsed, toks, cname, self_ty, lname, None, igs)
     world.fns[key] = fn
     return out, sha, line
 
@@ -2242,6 +2415,9 @@ def main():
             raw, text = cache[rel]
             out, sha, line = translate(world, text, raw, container, kind, name, opts)
         except Reject as e:
+            if kind == "fn" and container:
+                base = re.sub(r"<.*", "", container.split(" for ")[-1].split()[-1])
+                world.failed.add((base, name))
             errors.append((group, f"rust2lean_sm: REJECTED {shown}: {e}"))
             failed_groups.add(group)
             header.append(f"  {shown}: NOT TRANSLATED ({e})")
